@@ -35,7 +35,8 @@ func refTrace(in *refint.Interp) string {
 	return b.String()
 }
 
-var realCfg = vcommon.Cfg{MaxSteps: 300000, MaxPhysical: 3000, MaxAlloc: 200000}
+var realCfg = vcommon.Cfg{MaxSteps: 300000, MaxPhysical: 3000, MaxAlloc: 200000, NoStdlib: true}
+var realCfgStd = vcommon.Cfg{MaxSteps: 300000, MaxPhysical: 3000, MaxAlloc: 200000}
 
 func isLimit(o vcommon.Outcome) bool {
 	if !o.IsErr {
@@ -49,7 +50,13 @@ func isLimit(o vcommon.Outcome) bool {
 		strings.Contains(o.Msg, "exceeds maximum") || strings.Contains(o.Msg, "macro expansion depth")
 }
 
-func checkProgram(p gen.Program, c *vcommon.Ctx) *vcommon.Failure {
+func checkProgram(p gen.Program, c *vcommon.Ctx) *vcommon.Failure { return checkWith(realCfg, p, c) }
+
+// checkStd runs the same oracle with the standard library loaded (the full
+// documented embedding); the core sub-properties skip it for speed.
+func checkStd(p gen.Program, c *vcommon.Ctx) *vcommon.Failure { return checkWith(realCfgStd, p, c) }
+
+func checkWith(cfg vcommon.Cfg, p gen.Program, c *vcommon.Ctx) *vcommon.Failure {
 	src := p.Source()
 	in, rv, rerr, abort := refRun(p)
 	if abort != "" {
@@ -60,7 +67,7 @@ func checkProgram(p gen.Program, c *vcommon.Ctx) *vcommon.Failure {
 		c.Class("skip/unsupported")
 		return nil
 	}
-	rt := vcommon.NewRuntime(realCfg)
+	rt := vcommon.NewRuntime(cfg)
 	out := rt.Load(src)
 	if out.Panic {
 		return vcommon.Failf("internal-panic", "program raised an internal panic: %s\n%s", out.Msg, src)
@@ -152,6 +159,6 @@ func TestCheck(t *testing.T) {
 	vcommon.Main(t, "C01",
 		vcommon.S("small", 120000, 3000000, gen.GenProgram(2, 25, 4), checkProgram),
 		vcommon.S("medium", 60000, 1500000, gen.GenProgram(5, 70, 6), checkProgram),
-		vcommon.S("large", 8000, 200000, gen.GenProgram(6, 160, 8), checkProgram),
+		vcommon.S("large", 8000, 200000, gen.GenProgram(6, 160, 8), checkStd),
 	)
 }
